@@ -167,6 +167,10 @@ class C16(Property):
                         out.append("im_parse %s 1 1 %s - 1" % (body.hex(), rng.choice(["-", "-", rb(rng, 30).hex()])))
                     out.append("ni_dec " + (tlv(4, rb(rng, 16)) + part + b"\x00").hex())
                     out.append("ni_dec " + (part + tlv(4, rb(rng, 16)) + b"\x00").hex())
+        # --- signature length byte vs signature bytes present (the length byte is read before anything is verified)
+        for declared in (range(256) if thorough else sorted(set([0, 1, 31, 32, 63, 64, 65, 66, 96, 127, 128, 129, 200, 254, 255] + [rng.randrange(256) for _ in range(25)]))):
+            for present in sorted(set([0, 1, 63, 64, 65, declared, min(255, declared + 1), max(0, declared - 1)])):
+                out.append("im_parse %s L%d.%d 1 %s - 1" % (gen_init_body(rng, unknown=False).hex(), declared, present, rng.choice(["-", "-", rb(rng, 80).hex()])))
         # --- rotation codec
         for _ in range(1200 * k):
             r = rng.random()
